@@ -12,4 +12,7 @@ EXPLANATION = (
 ASSUMED = ["A-FOLD composition of the per-record step contracts", "A-STRUCT / A-UTF8 inverse pairs (pack/unpack, encode/decode)",
            "C-SUBPARSE nested payloads one level down (induction on depth not machine-checked)"]
 from pyvc.check import standin_bounded
-BOUNDED = [standin_bounded("C01")]
+from pyvc.check import external_bounded
+BOUNDED = [standin_bounded("C01"),
+           external_bounded("deep-schema:C01", "standin.deep", ["C01", "--n", "150"], ["C01", "--n", "800"],
+                            "nested schema (containers of oneof-carrying / field-less messages, two-level lazy parents, float maps, Duration JSON strings); observation-based oracle")]
